@@ -8,7 +8,7 @@ from ..astutil import calls_in, norm_stmt, path_of, unparse, walk_scope, walk_st
 from ..cfg import own_exprs
 from ..facts import Fact, atoms, enumerate_paths
 from ..report import Ctx
-from .common import always_before, expand, guard, increment_of, ingredients_along, need, node_of, single_defs, stmts_matching
+from .common import always_before, enclosing_stmt, expand, guard, increment_of, ingredients_along, need, node_of, single_defs, stmts_matching
 
 Q = "happysimulator/components/queue.py"
 QD = "happysimulator/components/queue_driver.py"
@@ -285,8 +285,18 @@ def rule_queue_entity(ctx: Ctx) -> None:
     alias = [s for s in walk_stmts(wp.node.body) if isinstance(s, ast.Assign) and path_of(s.targets[0]) == tev and path_of(s.value) == pay]
     retarget = stmts_matching(wp, f"{tev}.target = self.target")
     retime = stmts_matching(wp, f"{tev}.time = self.now")
-    ok = len(hooks) == 1 and (tev == pay or len(alias) == 1) and len(retarget) == 1 and len(retime) == 1 and len(rets) == 1 and unparse(rets[0].value) == f"[{tev}]"
-    ctx.ob("C08-6", "G2", wp, "same payload, one hook", ok, "the driver re-targets the very payload object (it keeps its creation index) to the worker at the current instant, with exactly one completion hook")
+    sd_w = single_defs(wp)
+    rv = expand(rets[0].value, {k_: v_ for k_, v_ in sd_w.items() if k_ != tev}) if len(rets) == 1 and rets[0].value is not None else None
+    elts = rv.elts if isinstance(rv, ast.List) else []
+    ok = len(hooks) == 1 and (tev == pay or len(alias) == 1) and len(retarget) == 1 and len(retime) == 1 and len(rets) == 1 and sum(1 for e_ in elts if path_of(e_) == tev) == 1
+    ctx.ob("C08-6", "G2", wp, "same payload, one hook", ok, "the driver re-targets the very payload object (it keeps its creation index) to the worker at the current instant, exactly once, with exactly one completion hook")
+    # burst re-check: the queue notifies only on empty → non-empty, so after handing an item over the driver must look again at the same instant,
+    # *after* the target has taken the item (an event built here is created after the payload, hence delivered after it)
+    rechecks = [e_ for e_ in elts if isinstance(e_, ast.Call) and path_of(e_.func) == "QueueNotifyEvent"]
+    kw = {k_.arg: unparse(k_.value) for k_ in rechecks[0].keywords} if len(rechecks) == 1 else {}
+    okr = len(elts) == 2 and len(rechecks) == 1 and kw.get("time") == "self.now" and kw.get("target") == "self"
+    ctx.ob("C08-6", "G2", wp, "burst re-check", okr, "after forwarding an item the driver re-examines the target's capacity at the same instant (a notify to itself, ordered after the payload): "
+           "of k items arriving together a worker with c free slots takes min(k, c) at once — no simulated time passes while an item waits and the worker has capacity")
     hook_fn = [f for f in wp.module.all_functions if f.parent is wp and hooks and f.name == path_of(hooks[0].args[0])]
     need(hook_fn, "C08-6: completion hook closure not found")
     hf = hook_fn[0]
@@ -413,18 +423,83 @@ def rule_round2(ctx: Ctx) -> None:
     ctx.ob("C08-3", "G2", se, loops[0] if loops else None, ok, "GateController creates each window's open event and then its close event, window by window: a close and the next window's open at the same instant are delivered close-first")
 
 
+def rule_capacity_rise_repolls(ctx: Ctx) -> None:
+    """C08-7: the queue notifies its driver only on empty → non-empty and the driver otherwise polls on completions, so a queue-fronted
+    component that *raises its own capacity* at run time must tell the driver to look at the queue — else queued work waits (for ever, if
+    the capacity was 0) although the worker has room.  For every QueuedResource subclass whose `has_capacity` is `<in service> < self.<CAP>`:
+    every run-time write of `self.<CAP>` sits in a function that returns a QueueNotifyEvent for the driver, guarded at most by a comparison
+    of the new value with the old one."""
+    prog = ctx.prog
+    n_cls = n_w = 0
+    for c in prog.subclasses_of_name("QueuedResource", "happysimulator/components/"):
+        hc = c.methods.get("has_capacity")
+        if hc is None:
+            continue
+        rets = [s_ for s_ in walk_stmts(hc.node.body) if isinstance(s_, ast.Return) and s_.value is not None]
+        if len(rets) != 1:
+            continue
+        sigs = [f.sig for f in atoms(rets[0].value, True)]
+        if len(sigs) != 1 or sigs[0][0] != "lt" or not sigs[0][2].startswith("self.") or "." in sigs[0][2][5:] or "(" in sigs[0][2]:
+            continue  # capacity delegated to a model object / not a plain attribute bound: other rules
+        cap = sigs[0][2]
+        n_cls += 1
+        for m in c.methods.values():
+            if m.name == "__init__":
+                continue
+            ws = [s_ for s_ in walk_stmts(m.node.body) if isinstance(s_, (ast.Assign, ast.AugAssign)) and any(path_of(t_) == cap for t_ in (s_.targets if isinstance(s_, ast.Assign) else [s_.target]))]
+            for w in ws:
+                n_w += 1
+                notes = [k for k in calls_in(m.node) if path_of(k.func) == "QueueNotifyEvent"
+                         and {kw.arg: unparse(kw.value) for kw in k.keywords}.get("target") in ("self.driver", "self._driver")
+                         and {kw.arg: unparse(kw.value) for kw in k.keywords}.get("time") == "self.now"]
+                ok, why = bool(notes), "no QueueNotifyEvent(time=self.now, target=self.driver) in this function"
+                if ok:
+                    mf = ctx.flow(m)
+                    st = enclosing_stmt(m, notes[0])
+                    nn = node_of(mf.cfg, st)
+                    wn = node_of(mf.cfg, w)
+                    # the notify comes after the write, and the only tests between them compare the new capacity with the old one
+                    ok = not always_before(ctx, m, lambda x: x is wn, lambda x: x is nn)
+                    why = "the notify can be reached without the capacity having been written"
+                    if ok:
+                        newv = path_of(w.value) if isinstance(w, ast.Assign) else None
+                        olds = {path_of(s_.targets[0]) for s_ in walk_stmts(m.node.body) if isinstance(s_, ast.Assign) and path_of(s_.value) == cap and isinstance(s_.targets[0], ast.Name)}
+                        for p_ in enumerate_paths(mf, wn, stop=lambda x: x is mf.cfg.exit):
+                            if any(x is nn for x in p_.nodes):
+                                continue
+                            # a path from the write to the exit without the notify: allowed only when it decided `new > old` false
+                            dec = [(n_, l_) for n_, l_ in zip(p_.nodes, p_.labels) if n_.kind == "test" and l_ is not None]
+                            rose = None
+                            for n_, l_ in dec:
+                                fs = {f.sig for f in atoms(n_.ast, True)}
+                                if newv and any(sg[0] == "lt" and sg[1] in olds and sg[2] == newv for sg in fs):
+                                    rose = l_[1]
+                            if rose is not False:
+                                ok, why = False, f"a path leaves the function after the write without notifying the driver [{p_.describe()[:100]}]"
+                                break
+                # writes at construction-time helpers are exempt only through the __init__ skip above
+                ctx.ob("C08-7", "G2", m, w, ok, f"{c.name}.{m.name}: a run-time change of the capacity `{cap}` tells the driver to look at the queue (QueueNotifyEvent to the driver at the same instant), "
+                       "otherwise items queued while there was no room wait although there is room now" + ("" if ok else " — " + why))
+    need(n_cls >= 1 and n_w >= 1, f"C08-7: expected at least one queue-fronted component with a run-time capacity attribute (ShiftedServer), found {n_cls} classes / {n_w} writes")
+
+
 def run(ctx: Ctx) -> None:
     ctx.guarded(rule_policy_contract)
     ctx.guarded(rule_ordering)
     ctx.guarded(rule_queue_entity)
     ctx.guarded(rule_acquire_release)
     ctx.guarded(rule_round2)
+    ctx.guarded(rule_capacity_rise_repolls)
 
 
 CODEL = QPS + "codel.py"
 DEADL = QPS + "deadline_queue.py"
 FAIR = QPS + "fair_queue.py"
 MUTANTS = [
+    ("shifted-server-no-repoll", SHIFT, '        if new_capacity > old_capacity:\n            # Items queued while there was no free capacity are only fetched on\n            # a notify or a completion: tell the driver to look at the queue.\n            events.append(QueueNotifyEvent(time=self.now, target=self.driver, queue_entity=self.queue))\n', "", "C08-7"),
+    ("shifted-server-repoll-on-drop-only", SHIFT, "        if new_capacity > old_capacity:\n            # Items queued", "        if new_capacity < old_capacity:\n            # Items queued", "C08-7"),
+    ("driver-no-burst-recheck", QD, '        recheck = QueueNotifyEvent(time=self.now, target=self, queue_entity=self.queue)\n        return [target_event, recheck]\n', "        return [target_event]\n", "C08-6"),
+    ("driver-recheck-later", QD, "recheck = QueueNotifyEvent(time=self.now, target=self,", "recheck = QueueNotifyEvent(time=self.now + 0.001, target=self,", "C08-6"),
     ("dynamic-release-by-weight", CONC, "            weight: Ignored for DynamicConcurrency (always 1).\n        \"\"\"\n        self._active = max(0, self._active - 1)", "            weight: Ignored for DynamicConcurrency (always 1).\n        \"\"\"\n        self._active = max(0, self._active - weight)", "C08-5"),
     ("purge-expired-without-heapify", DEADL, "            heapq.heapify(new_heap)\n            self._heap = new_heap", "            self._heap = new_heap", "C08-3"),
     ("gate-opens-then-closes", GATE, ["        events: list[Event] = []\n        for open_at, close_at in self.schedule:\n            events.append(\n                Event(\n                    time=Instant.from_seconds(open_at),\n                    event_type=_GATE_OPEN,\n                    target=self,\n                    daemon=True,\n                )\n            )\n"],
@@ -458,6 +533,7 @@ MUTANTS = [
 ]
 MUTANTS = [m for m in MUTANTS if m[4] != "C08-NONE"]
 REFACTORS = [
+    ("driver-recheck-listed-first", QD, '        recheck = QueueNotifyEvent(time=self.now, target=self, queue_entity=self.queue)\n        return [target_event, recheck]\n', '        recheck = QueueNotifyEvent(time=self.now, target=self, queue_entity=self.queue)\n        return [recheck, target_event]\n'),
     ("fifo-push-lt", QP, "    def push(self, item: T) -> bool:\n        if len(self._queue) >= self.capacity:\n            return False\n        self._queue.append(item)\n        return True\n\n    def pop(self) -> T | None:\n        if not self._queue:\n            return None\n        return self._queue.popleft()",
      "    def push(self, item: T) -> bool:\n        if len(self._queue) < self.capacity:\n            self._queue.append(item)\n            return True\n        return False\n\n    def pop(self) -> T | None:\n        if not self._queue:\n            return None\n        return self._queue.popleft()"),
     ("queue-enqueue-positive-branch", Q, "        if not accepted:\n            self.stats_dropped += 1", "        if accepted is False or not accepted:\n            self.stats_dropped += 1"),
